@@ -83,9 +83,9 @@ Proof. exact failure_nulls_visible. Qed.
     selections) is transparent: with and without it the executor returns the same response, for
     every document (typed or not) whose selection nodes have distinct positions. *)
 Theorem C01_collect_cache_transparent : forall S D E fuel W,
-  type_names_okb S = true -> doc_positions_okb D = true ->
+  type_names_okb S = true -> doc_positions_okb D = true -> dirs_evaluable D E = true ->
   run fixed S D E fuel W = run fixed_nomemo S D E fuel W.
-Proof. exact (fun S D E fuel W Hn Hp => collect_cache_transparent S D E fuel Hn Hp W). Qed.
+Proof. exact (fun S D E fuel W Hn Hp Hev => collect_cache_transparent S D E fuel Hn Hp W Hev). Qed.
 
 (** stage 2: response keys are in document order after fragment expansion, merging and
     @skip/@include: the root object's keys are the response keys of the collected field nodes
